@@ -463,6 +463,9 @@ func runCheck(opt vexec.Options, prop string, seed int64, verif string) int {
 			if !reproduced && (v.Kind == "race" || v.Kind == "deadlock" || usesSchedule(v)) {
 				fmt.Printf("UNCONFIRMED property=%s harness=%s %q: found under a modelled goroutine schedule, not reproduced by native repetition (race detector on)\n", prop, h.Name, v.Label)
 				inconclusive = append(inconclusive, fmt.Sprintf("%s: schedule-dependent counterexample for %q not reproduced natively", h.Name, v.Label))
+				os.MkdirAll(replayDir, 0o755)
+				ub, _ := json.MarshalIndent([]replayCase{rc}, "", " ")
+				os.WriteFile(filepath.Join(replayDir, fmt.Sprintf("unconfirmed-%s-%d.json", h.Name, len(inconclusive))), ub, 0o644)
 				continue
 			}
 			if !reproduced {
